@@ -770,3 +770,26 @@ Proof.
   destruct (win_rows_rows d sp (d_rows d) r (nth_error_In _ _ Hr) U M) as [i [Hi Hw]].
   exists i. split; [exact Hi|]. rewrite Hw. reflexivity.
 Qed.
+
+(* =============================================================== operand type check *)
+Lemma analytic_type_check numeric f sp d :
+  (numeric_only f = true /\ In false numeric -> d_analytic_t numeric f sp d = Err ERR_IMPLICIT_CAST) /\
+  (numeric_only f = false \/ (forall b, In b numeric -> b = true) -> d_analytic_t numeric f sp d = d_analytic f sp d).
+Proof.
+  unfold d_analytic_t. split.
+  - intros [Hf Hin]. rewrite Hf. simpl.
+    destruct (forallb (fun b => b) numeric) eqn:E; [|reflexivity].
+    rewrite forallb_forall in E. specialize (E false Hin). discriminate.
+  - intros [Hf|Hall]; [rewrite Hf; reflexivity|].
+    assert (E : forallb (fun b => b) numeric = true) by (apply forallb_forall; exact Hall).
+    rewrite E, andb_false_r. reflexivity.
+Qed.
+
+Lemma calc_analytic_type_check opn d name f sp operand :
+  (numeric_only f = true /\ opn = false -> d_calc_analytic_t opn d name f sp operand = Err ERR_IMPLICIT_CAST) /\
+  (numeric_only f = false \/ opn = true -> d_calc_analytic_t opn d name f sp operand = d_calc_analytic d name f sp operand).
+Proof.
+  unfold d_calc_analytic_t. split.
+  - intros [-> ->]. reflexivity.
+  - intros [->| ->]; [reflexivity | rewrite andb_false_r; reflexivity].
+Qed.
